@@ -80,7 +80,7 @@ def _alone(cls, inst) -> bytes:
 
 def _small_shape(rng):
     s = gen.draw_shape(rng)
-    while s["name"] in ("big", "wide"):
+    while s["name"] in ("big", "wide", "huge"):
         s = gen.draw_shape(rng)
     return s
 
